@@ -1,9 +1,10 @@
-CONSTANTS N = 8  NOrig = 5  NLoc = 3  MaxLevel = 999  Typed = FALSE  MaxSet = 3  NBlk = 0  BlkGrid = FALSE
+CONSTANTS N = 8  NOrig = 5  NLoc = 3  MaxLevel = 999  Typed = FALSE  MaxSet = 3  NBlk = 0  BlkGrid = FALSE  NGrp = 0  Rx = FALSE  NAsm = 0  Deviant = TRUE  WithOwned = TRUE
 SPECIFICATION TSpec
 CONSTRAINT Progress
 POSTCONDITION Report
 INVARIANT TypeOK
-INVARIANT OneParentListedOnce
+INVARIANT BrokenIsDead
+INVARIANT OneParentListedOnceD
 INVARIANT NoDuplicates
 INVARIANT Acyclic
 INVARIANT DetachedIsDetached
